@@ -33,7 +33,8 @@ RULE = (
     "{name, dir, '..', '.', empty, '..name', 'dir..', secret, outsidedir} joined by every separator assignment over "
     "{'/', '//', '\\', '\\/'} (n<=mix_n) or by the 5 separator patterns (all '/', all '//', all '\\', alternating "
     "'/\\', alternating '\\/') with each prefix in {'', '/', '//', '\\', '\\\\', '/\\'} and suffix in {'', '/'}; plus "
-    "the absolute-path family prefix + <absolute path of the scratch tree> + <=k alphabet segments. Canonical = the "
+    "the absolute-path family prefix + [empty segment] + <absolute path of the scratch tree, '/' or '\\' separated> + <=k alphabet segments "
+    "(5 separator patterns). Canonical = the "
     "URI string (de-duplicated), so distinct cases = distinct (config, form, depth, string). Non-trivial = the "
     "reference walk of the URI steps above a configured root at least once (for some admissible interpretation), "
     "or the URI spells an absolute file-system path."
@@ -53,15 +54,18 @@ BOUNDS = {
         "n": 4,
         "mix_n": 3,
         "abs_tail": 2,
-        "plan": "get_template n<=4 x 8 configs; has_template n<=3 x 8 configs; include depth 0..3 n<=4 x (abs root, no modules); "
-        "include/inherit/namespace/ns.get_template/ns.get_namespace depth 0..3 n<=3 x {abs root no modules, two roots + modules}",
+        "plan": "n = segments (pattern+abs families / separator-mix family). get_template: n<=4/3 on (abs root, no modules), n<=3/2 on all 8 "
+        "configurations; has_template: n<=3/2 on (abs, no modules), n<=2/2 on all 8; <%include>: depth 1 n<=4/2, depth 0..3 n<=3/2 on (abs, no "
+        "modules); inherit, namespace, ns.get_template, ns.get_namespace: depth 1 n<=3/2 on (abs, no modules); all five tag forms depth 0..3 "
+        "n<=2/2 on {(abs, no modules), (two roots, modules)}",
     },
     "thorough": {
         "n": 6,
         "mix_n": 4,
         "abs_tail": 3,
-        "plan": "get_template n<=6 x {abs, two+modules}, n<=5 x 8 configs; has_template n<=4 x 8 configs; include depth 0..3 n<=5 x (abs, no modules); "
-        "all five tag forms depth 0..3 n<=4 x {abs no modules, two roots + modules}, n<=3 x 8 configs",
+        "plan": "get_template: n<=6/4 on (abs, no modules), n<=5/3 on (two roots, modules), n<=4/3 on all 8; has_template: n<=4/3 on (abs, no "
+        "modules), n<=3/2 on all 8; <%include>: depth 1..3 n<=5/3, depth 0 n<=4/3 on (abs, no modules); the other four tag forms depth 0..3 "
+        "n<=4/2 on (abs, no modules); all five tag forms depth 0..3 n<=3/2 on {(abs, no modules), (two roots, modules)} and n<=2/2 on all 8",
     },
 }
 
@@ -378,7 +382,7 @@ def _audit(event, args):
             for p, wr in event_paths(event, args):
                 if wr:
                     try:
-                        ap = os.path.normpath(os.path.join(T, os.fsdecode(p)))
+                        ap = _norm(T, p)
                     except Exception:
                         continue
                     if not (ap == T or ap.startswith(T + "/")):
@@ -526,9 +530,15 @@ def uri_shape(form, uri_t):
         feats.append("down-then-up" if first > 0 else "dotdot")
     if "\\" in rest.replace(ABS_BACK, ""):
         feats.append("backslash-sep")
-    if len(lead) > 2:
-        lead = lead[:2] + "+"
-    return "%s lead=%r %s" % ("direct" if form in "GH" else "tag", lead, "+".join(feats) or "plain")
+    if not lead:
+        lc = "none"
+    elif set(lead) == {"/"}:
+        lc = "slashes"
+    elif set(lead) == {"\\"}:
+        lc = "backslashes"
+    else:
+        lc = "slash+backslash"
+    return "%s lead=%s %s" % ("direct" if form in "GH" else "tag", lc, "+".join(feats) or "plain")
 
 
 def run_case(w, ci, form, depth, uri_t):
@@ -601,17 +611,16 @@ def run_case(w, ci, form, depth, uri_t):
     for ev, args in events:
         for p, wr in event_paths(ev, args):
             try:
-                p = os.fsdecode(p)
+                ap = _norm(T, p)
             except Exception:
                 continue
-            ap = os.path.normpath(os.path.join(T, p))
             if ap == T or ap.startswith(T + "/"):
                 rel = ap[len(T) + 1:]
                 top = rel.split("/", 1)[0]
                 if wr:
                     if not (cfg["mods"] and top == "mods"):
                         where = "root" if top in roots else "tree"
-                        viols.append(("write-outside-module-directory[" + where + "]: %s",
+                        viols.append(("write-outside-module-directory[" + where + "] roots=" + cfg["roots"],
                                       "2/5 files are created only beneath module_directory",
                                       "writes only under mods/" if cfg["mods"] else "no writes", {"event": ev, "path": rel}))
                 else:
@@ -676,10 +685,19 @@ def run_case(w, ci, form, depth, uri_t):
     return obs, uniq
 
 
+def _norm(T, p):
+    """lexical absolute form of a path the library used (relative to the cwd = T);
+    POSIX normpath keeps exactly two leading slashes: fold them"""
+    ap = os.path.normpath(os.path.join(T, os.fsdecode(p)))
+    if ap.startswith("//"):
+        ap = ap[1:]
+    return ap
+
+
 def _rel(fn, T):
     if fn is None:
         return None
-    ap = os.path.normpath(os.path.join(T, fn))
+    ap = _norm(T, fn)
     if ap.startswith(T + "/"):
         return "<T>/" + ap[len(T) + 1:]
     return ap
@@ -828,7 +846,7 @@ def _run_chunk(w, st, vi, seed, combos, chunk, percase=False):
             if percase:
                 d = diff_snapshot(w, cfg)
                 if d is not None:
-                    viols.append(("snapshot: %s: %s" % (d[0], uri_shape(form, uri_t)),
+                    viols.append(("snapshot: %s roots=%s" % (d[0], cfg["roots"]),
                                   "5 the tree outside module_directory is unchanged", "unchanged tree", d[1]))
                     w.rebuild()
                     w.mods0 = []
@@ -864,7 +882,7 @@ def _run_chunk(w, st, vi, seed, combos, chunk, percase=False):
             st.extra["other_exceptions"][k] = st.extra["other_exceptions"].get(k, 0) + 1
         for sig, oracle, expected, observed in viols:
             vi.add(sig, case, oracle, expected, observed)
-        if st.evaluations % 40009 == 1:
+        if st.evaluations % 9973 == 1:
             st.sample({"case": case, "ref": obs["ref"], "outcome": obs["kind"]})
     st.oracles["snapshot"] += 1 if not percase else len(local)
     return 0
@@ -883,7 +901,7 @@ def replay(case):
         obs, viols = run_case(w, ci, case["form"], case["depth"], case["uri"])
         d = diff_snapshot(w, CONFIGS[ci])
         if d is not None:
-            viols.append(("snapshot: " + d[0], "5 the tree outside module_directory is unchanged", "unchanged tree", d[1]))
+            viols.append(("snapshot: %s roots=%s" % (d[0], case["cfg"]["roots"]), "5 the tree outside module_directory is unchanged", "unchanged tree", d[1]))
         text = "%s(%r) depth=%d cfg=%r -> ref=%s outcome=%s" % (
             FORM_NAMES[case["form"]], concrete(case["uri"], w.T), case["depth"], case["cfg"], obs["ref"], obs["kind"])
         if viols:
@@ -896,7 +914,8 @@ def replay(case):
 LEVEL_TEXT = (
     "Every URI string of <=4 (quick) / <=6 (thorough) segments over the 9-segment traversal alphabet, every separator "
     "spelling, prefix and suffix, plus the absolute-path family, is resolved by the real TemplateLookup directly and "
-    "through each tag / Namespace form from callers at depth 0..3 under the listed configurations; on each case the "
+    "through each tag / Namespace form from callers at depth 0..3 under the configurations and per-form bounds listed in "
+    "BOUNDS[tier]['plan'] (the full product of the design is cut to that plan for cost); on each case the "
     "returned filenames, all audited file events, the markers in output and exception text, the refusal demanded by "
     "the reference walker and (per chunk, attributed per case on difference) the tree snapshot are checked. Complete "
     "within those bounds; no sampling."
